@@ -108,6 +108,10 @@ TDeliver   == Step("Deliver")   /\ RPC(Deliver(Ev.s))
 TFinish    == Step("Finish")    /\ RPC(Finish(Ev.s))
 TAbort     == Step("Abort")     /\ RPC(Abort(Ev.s))
 TTruncated == Step("Truncated") /\ RPC(Truncated(Ev.s))
+TPartialWrite == Step("PartialWrite") /\ RPC(PartialWrite(Ev.s, Ev.a, Ev.units, Ev.part))
+\* a block confirming an EARLIER fully signed revision of the contract is mined and applied to the contractor
+\* (the chain subscriber): time passes, nothing else -- the host's latest revision never goes backwards
+TConfirm   == Step("Confirm")   /\ RPC(Mine(1))
 TBeginFree    == Step("BeginFree")    /\ RPC(BeginFree(Ev.s, Ev.idx, Ev.pf, Ev.cf))
 TRound2Free   == Step("Round2Free")   /\ (RPC(Round2Free(Ev.s, Ev.sf)) \/ RPC(Ignored(Ev.s)))
 TBeginAppend  == Step("BeginAppend")  /\ RPC(BeginAppend(Ev.s, Ev.secs, Ev.pf, Ev.cf))
@@ -169,7 +173,7 @@ TCommit ==
     /\ UNCHANGED <<stored, pex, att, olds, tipd, lock, holder>> /\ Quiet
 
 TraceNext ==
-    \/ TReset \/ TMine \/ TDeliver \/ TFinish \/ TAbort \/ TTruncated
+    \/ TReset \/ TMine \/ TConfirm \/ TPartialWrite \/ TDeliver \/ TFinish \/ TAbort \/ TTruncated
     \/ TBeginFree \/ TRound2Free \/ TBeginAppend \/ TRound2Append \/ TBeginRoots \/ TBeginLatest
     \/ TBeginFund \/ TBeginRepl \/ TRound2Repl \/ TBeginAttach \/ TBeginDetach
     \/ TBeginRead \/ TBeginVerify \/ TBeginWrite \/ TBeginBalance
